@@ -10,6 +10,8 @@ pub use substrate_fixed::{
 pub use vfcore::*;
 
 mod layouts;
+mod wext;
+pub use wext::WExt;
 
 /// bits -> value through the public `from_bits`
 #[inline]
